@@ -5,7 +5,7 @@ from vtlib.env import REPO
 from pyvc.unit import Registry
 from pyvc.modules import Loader
 
-CONTRACT_MODULES = ["contracts.scratchdb_c", "contracts.reject_c", "contracts.nibbles_c", "contracts.binaries_c", "contracts.binnodes_c", "contracts.seqlemmas", "contracts.prefix_c", "contracts.binary_c", "contracts.branches_c", "contracts.hexary_c", "contracts.traverse_c", "contracts.fog_c", "contracts.iter_c", "contracts.smt_c"]
+CONTRACT_MODULES = ["contracts.scratchdb_c", "contracts.reject_c", "contracts.nibbles_c", "contracts.binaries_c", "contracts.binnodes_c", "contracts.seqlemmas", "contracts.prefix_c", "contracts.binary_c", "contracts.branches_c", "contracts.hexary_c", "contracts.traverse_c", "contracts.fog_c", "contracts.iter_c", "contracts.smt_c", "contracts.getters_c"]
 
 
 def make_loader():
@@ -15,9 +15,25 @@ def make_loader():
     return loader
 
 
+# pure functions (byte strings / tuples / ints in, value or exception out): a refuted obligation of one of these
+# units is replayed on the real function with the solver's counterexample (pyvc/purereplay.py)
+PURE_UNITS = [
+    "trie.utils.nodes:encode_leaf_node", "trie.utils.nodes:encode_branch_node", "trie.utils.nodes:encode_kv_node",
+    "trie.utils.nodes:parse_node", "trie.utils.nodes:get_common_prefix_length", "trie.utils.nodes:key_starts_with",
+    "trie.utils.nibbles:encode_nibbles", "trie.utils.nibbles:decode_nibbles",
+    "trie.utils.binaries:encode_from_bin_keypath", "trie.utils.binaries:decode_to_bin_keypath",
+    "trie.validation:validate_is_bytes#refused", "trie.validation:validate_length#refused",
+]
+
+
 def build():
     reg = Registry()
     for name in CONTRACT_MODULES:
         mod = importlib.import_module(name)
         mod.register(reg)
+    from pyvc import purereplay
+    for q in PURE_UNITS:
+        c = reg.contracts.get(q)
+        if c is not None and getattr(c, "witness", None) is None and c.setup is not None:
+            purereplay.attach(c)
     return reg
